@@ -70,6 +70,13 @@ Theorem C10_array_of_strings_round_trip : forall html xs rest,
   read_array (sen_array html xs ++ rest) = Some (map (elem_out html) xs, rest).
 Proof. exact sen_array_round_trip. Qed.
 
+(* objects of strings, as the tight writers lay them out (key, colon, value, one blank): read back
+   member by member, keys as strings whatever their spelling *)
+Theorem C10_object_of_strings_round_trip : forall html ms rest,
+  Forall (member_ok html) ms ->
+  read_object (sen_object html ms ++ rest) = Some (map (member_out html) ms, rest).
+Proof. exact sen_object_round_trip. Qed.
+
 (* the two exceptions are real (the recorded finding C10-bare-reserved-or-sign-string, in the model):
    "true" is written bare and read as the boolean; "-a" is written bare and is not a token *)
 Theorem C10_reserved_value_refuted :
@@ -97,3 +104,4 @@ Print Assumptions C10_quoted_string_round_trip.
 Print Assumptions C10_bare_string_round_trip.
 Print Assumptions C10_string_round_trip.
 Print Assumptions C10_array_of_strings_round_trip.
+Print Assumptions C10_object_of_strings_round_trip.
